@@ -35,6 +35,8 @@ def run(model, res, tier):
     res.rule('R6', 'no listener: blank')
     res.rule('R7', 'cell tokens cover the label language')
     res.rule('R8', 'callbacks keep no shared state')
+    res.rule('R10', 'labels recomposed for range corners agree with the coordinates: column/row converters are exact bijective base-26 / index+1 maps (shared with C19.R3, C19.R4)')
+    res.rule('R9', 'a listener that evaluates another formula cannot make the outer formula lose its remaining references: private token stream per parse (shared with C03.R1)')
     res.trusted += ['hxsa abstract interpreter and builtin models', 'CPython ast', 're._parser']
     cbs = callbacks(c)
     for need in EVENTS:
@@ -52,6 +54,11 @@ def run(model, res, tier):
     purity.check_memo(res, c, 'R8', region, 'a function used by a reference callback')
     from . import c03
     c03.instance_state(model, res, c, 'R8')
+    c03._r1(model, res, c, 'R9')
+    from . import c19
+    cm = c19.cell_module(model)
+    H.borrow(res, 'R10', 'column converters', lambda tmp: c19._r3(model, tmp, cm))
+    H.borrow(res, 'R10', 'row converters', lambda tmp: c19._r4(model, tmp, cm))
 
 
 # ---------------------------------------------------------------------------------------------------
